@@ -663,3 +663,23 @@ PROPS["C28"] = dict(
     trusted_base=MIR_TB,
     mir=True,
 )
+
+
+PROPS["C08"] = dict(
+    title="Protected calls succeed exactly when the access rule is satisfied",
+    functions=["radix_engine::system::system_modules::auth::Authorization::{check_authorization_against_access_rule, "
+               "verify_auth_rule, verify_proof_rule}"],
+    bounds="AllowAll, DenyAll and every Protected rule tree of composite depth <= 1 (quick) / <= 2 (thorough) with lists "
+           "of 2 entries, all five basic requirement forms over 3 non-fungible badges and 2 resources, any u8 count, any "
+           "amount <= 10^12 XRD; every set of visible badges: each badge held or not, an optional fungible proof with any "
+           "amount",
+    outside="the auth-zone stack traversal itself (the two private leaf predicates are an environment stub in the symbolic "
+            "run; the native replay uses the real ones over real AuthZone substates behind a mock kernel), implicit "
+            "package / global-caller proofs, resource simulation, the owner-role fallback and role-key lookup in "
+            "check_authorization_against_role_key_internal (key-value substates), rule trees that are wider or deeper",
+    assumptions=["auth_zone_stack_matches_rule answers 'the badge is visible' (non-fungible badge held / a proof of that "
+                 "resource present) and auth_zone_stack_has_amount answers 'a proof of that resource with at least the "
+                 "amount is present'"],
+    trusted_base=MIR_TB,
+    mir=True,
+)
